@@ -138,6 +138,31 @@ def run(prog, chk):
                'the collector keeps the referrers of objects with tracked fields alive only while the program runs: the closure over %s is skipped once the run is over, so the '
                'end-of-run collection releases them and their tracked outcomes are recorded (kept until teardown they are dropped silently: counts fall short of N × exits)' % sc_['kept_set'],
                key='end-of-run-release')
+    # the class flag the collector reads ("objects of this class own qubits or tracked state") covers inherited fields: every builder of
+    # runtime classes that copies the field table from the base copies the flag with it — otherwise an object of a class that only
+    # inherits its @tracked field is reclaimed silently when a garbage cycle is its last owner, and its outcome is never recorded
+    nb_ = 0
+    for f_ in prog.in_file('runtime_evaluator.cpp', with_lambdas=False):
+        if not f_.body:
+            continue
+        copied = {}
+        for n_ in SX.walk(f_.body, into_lambdas=False):
+            w_ = SX.write_target(n_)
+            if not (w_ and w_[2] == '='):
+                continue
+            l_, r_ = SX.strip(w_[0]), SX.strip(w_[1])
+            if SX.is_node(l_) and l_.get('k') == 'member' and SX.is_node(r_) and r_.get('k') == 'member' and l_['name'] == r_['name'] and 'RuntimeClass' in (l_.get('q') or ''):
+                rb_ = SX.strip(r_['base'])
+                while SX.is_node(rb_) and rb_.get('k') == 'opcall' and rb_.get('op') in ('->', '*'):
+                    rb_ = SX.strip(rb_['args'][0])
+                if SX.is_node(rb_) and ((rb_.get('k') == 'member' and rb_.get('name') == 'base') or (rb_.get('k') == 'ref' and 'base' in rb_.get('name', '').lower())):
+                    copied[l_['name']] = n_.get('ln', f_.ln)
+        if 'instanceFields' in copied:
+            nb_ += 1
+            chk.ob('R17.3', f_, copied['instanceFields'], 'hasTrackedFields' in copied,
+                   '%s starts a class from its base\'s field table: the "has qubit/tracked fields" flag is copied with it (an object that only inherits its tracked field is otherwise '
+                   'reclaimed silently when a garbage cycle is its last owner — its outcome is never recorded)' % f_.short, key='tracked-flag-inherited:' + f_.short)
+    chk.count('builders that start a class from its base\'s field table', nb_, 2)
     # ---- R17.2 ---------------------------------------------------------------------------------
     nb = 0
     for f in [x for x in R.ev_methods() if x.body]:
